@@ -38,8 +38,8 @@ ASSUMPTIONS = [
     "(pw+2)x(ph+2), pw x ph, pw x (ph+1), or the terminal size the padding was resolved against",
     "old API: h_align/v_align None mean centre/middle; width/height <= 0 are relative to the "
     "terminal size reported by get_terminal_size() (docstrings of BaseImage.draw / format spec)",
-    "RenderIterator.set_padding() is exercised with absolute paddings only (relative ones are "
-    "finding F7, judged by C08)",
+    "RenderIterator.set_padding() with a relative AlignedPadding relies on the repair of finding F7 "
+    "(commit 3b16f02 of the tree); on a tree without it these cases raise and are reported",
 ]
 
 HALIGNS = ["left", "center", "right"]
@@ -630,8 +630,12 @@ def gen_cases(rng: random.Random, tier: str):
             screen = "tight"
         ops = {}
         if i % 2:
-            ops["1"] = [["set_padding", rand_aligned(rng, rw, rh) if i % 4 == 1 else rand_exact(rng),
-                         rng.choice(FILLS)]]
+            if i % 8 == 7:  # relative padding given later (F7, repaired in the tree: resolved upon reception)
+                newpad = aligned(rng.choice(rel_dims), rng.choice(rel_dims), rng.choice(HALIGNS), rng.choice(VALIGNS))
+                rw, rh = min(rw, tw), min(rh, th)
+            else:
+                newpad = rand_aligned(rng, rw, rh) if i % 4 == 1 else rand_exact(rng)
+            ops["1"] = [["set_padding", newpad, rng.choice(FILLS)]]
             screen = "tight"
         if i % 5 == 0 and frames == 3 and screen == "tight":
             ops["2"] = [["set_render_size", [rng.randrange(1, 5), rng.randrange(1, 4)]]]
